@@ -403,4 +403,42 @@ theorem diagFix_get (ops : DropOps K R T) (milu : Milu) (alpha : R) (fillTol : T
   · simp only [show (Milu.smilu2 == Milu.silu) = false from rfl, Bool.false_eq_true, if_false]; rw [key]; simp
   · simp only [show (Milu.smilu3 == Milu.silu) = false from rfl, Bool.false_eq_true, if_false]; rw [key]; simp
 
+
+/-! ### the block-level statements -/
+
+theorem dropBlock_rows (ops : DropOps K R T) (rule : Rule) (milu : Milu) (nrm : Nrm) (dropTol : T) (quota : Int) (alpha : R)
+    (fillTol : T) (m n : Nat) (rows : Array (Array K)) (subs : Array Int) :
+    (dropBlock ops rule milu nrm dropTol quota alpha fillTol m n rows subs).2.2.1 =
+      if (dropBlock ops rule milu nrm dropTol quota alpha fillTol m n rows subs).1.r = 0
+      then (dropBlock ops rule milu nrm dropTol quota alpha fillTol m n rows subs).1.rows
+      else (diagFix ops milu alpha fillTol m n (dropBlock ops rule milu nrm dropTol quota alpha fillTol m n rows subs).1.rows).1 := by
+  unfold dropBlock
+  dsimp only
+  split <;> rename_i h <;> simp [h]
+
+theorem trace_mem_pos {ops : DropOps K R T} {milu : Milu} {m n : Nat} {rows0 : Array (Array K)} {subs0 : Array Int} {s : DSt K R}
+    (h : Inv ops milu m n rows0 subs0 s) (e : Nat × R) (he : e ∈ s.trace) :
+    ∃ k, k < s.r ∧ e.1 = s.orig[m - 1 - k]! := by
+  have he' : e ∈ s.trace.reverse := List.mem_reverse.mpr he
+  obtain ⟨k, hk, hke⟩ := List.mem_iff_getElem.mp he'
+  have hkr : k < s.r := by simpa [h.tlen] using hk
+  refine ⟨k, hkr, ?_⟩
+  rw [← h.gone k hkr, getElem!_def, List.getElem?_eq_getElem hk, hke]
+
+/-- a dropped row is never a row of the diagonal block, and it is not among the kept rows -/
+theorem trace_not_kept {ops : DropOps K R T} {milu : Milu} {m n : Nat} {rows0 : Array (Array K)} {subs0 : Array Int} {s : DSt K R}
+    (h : Inv ops milu m n rows0 subs0 s) (e : Nat × R) (he : e ∈ s.trace) :
+    n ≤ e.1 ∧ ∀ p, p ≤ s.m1 → s.orig[p]! ≠ e.1 := by
+  obtain ⟨k, hk, hke⟩ := trace_mem_pos h e he
+  have hcnt := h.cnt
+  have hnle := h.n_le
+  have hnk : ∀ p, p ≤ s.m1 → s.orig[p]! ≠ e.1 := by
+    intro p hp heq
+    have := h.inj p (m - 1 - k) (by omega) (by omega) (by rw [heq, hke])
+    omega
+  refine ⟨?_, hnk⟩
+  by_contra hlt
+  have hlt : e.1 < n := by omega
+  exact hnk e.1 (by omega) (h.diag e.1 hlt)
+
 end Slu.IluDrop
